@@ -185,6 +185,27 @@ def match_approx(cells, key):
     return pos[-1] if pos else ANY_ERROR
 
 
+def match_approx_mixed(cells, key):
+    """Approximate MATCH over a column of numbers followed by texts (ascending
+    in Excel's order).  Judged only where "the last position whose value does
+    not exceed the lookup value" is a cell of the key's own type: then it does
+    not matter whether cells of the other type are compared or skipped."""
+    def rank(v):
+        if is_number(v):
+            return (0, v)
+        if kind(v) == 'text':
+            return (1, fold(v))
+        raise Unjudged('cell-kind-outside-the-statement')
+    ranks = [rank(c) for c in cells]
+    if any(a > b for a, b in zip(ranks, ranks[1:])):
+        raise Unjudged('data-not-ascending')
+    rk = rank(key)
+    same = [i + 1 for i, r in enumerate(ranks) if r[0] == rk[0] and r <= rk]
+    if not same:
+        raise Unjudged('no-cell-of-the-key-type-qualifies')
+    return same[-1]
+
+
 def vlookup(table, key, col):
     """table: list of rows.  Returns the value, NA, or ANY_ERROR."""
     width = len(table[0])
